@@ -36,10 +36,12 @@ class C20(Prop):
             nl = rng.randint(1, 7)
             arb = rng.random() < 0.3
             ints = (not arb) and rng.random() < 0.2      # whole-number spectra (photon counts, 8/16-bit images) handed over with an integer dtype
+            neg = (not ints) and rng.random() < 0.2      # difference spectra / dark-corrected readings: negative samples are data like any other
             def val():
                 if ints:
                     return float(rng.randint(0, 255))
-                return rng.uniform(0.001, 50.0) if arb else dyad(rng, 0, 64, 16)
+                v_ = rng.uniform(0.001, 50.0) if arb else dyad(rng, 0, 64, 16)
+                return -v_ if (neg and rng.random() < 0.4) else v_
             def wl():
                 return rng.uniform(100.0, 2000.0) if arb else float(rng.randint(100 * 4, 2000 * 4)) / 4
             units = rng.choice(["none", "none", "base", "scaled"])
@@ -99,6 +101,9 @@ class C20(Prop):
         kw = {"prefix": case["prefix"] or None}
         if case["axis"] is not None:
             kw["axis"] = case["axis"]
+        import core as _core
+        for v_ in (a_in, l_in):
+            _core.watch(getattr(v_, "magnitude", v_))
         r = fn(a_in, l_in, **kw)
         unit = None
         if hasattr(r, "magnitude"):
